@@ -6,6 +6,7 @@
   is now (`Set.db_reverse_remove` with the phantom check of fix 6b92706), `guarded = false` the code before it.
 -/
 import PonyVerif.Lemmas.RepRead
+import PonyVerif.Gen.OccTable
 namespace PonyVerif.Props.C21
 open PonyVerif.Model.RepRead
 
@@ -254,5 +255,59 @@ example : (run wCfg true Sess.init [(wDb1, .fetch [1] none [0, 1]), (wDb1, .read
 example : (run wCfg true Sess.init [(wDb1, .fetch [1] none [0, 1]), (wDb1, .write 1 1 50), (wDb1, .readAttr 1 1), (wDb1, .commit),
     ([(1, [(0, 1), (1, 99)]), (2, [(0, 1), (1, 20)])], .fetch [1] none [0, 1]), ([], .readAttr 1 1)]).2
     = [.objs [1], .ok, .val 50, .ok, .err .unrepeatable, .val 50] := by decide
+
+/-! ### bridge to the table probed from the real code on every run (harness/gen_c20.py -> Gen/OccTable.lean)
+
+The per-attribute primitives of the model -- what `obj.a`, `obj.a = v`, `_db_set_` and the tail of `_save_updated_` +
+`_update_dbvals_` do to the read bit, the write bit, `_vals_` and `_dbvals_` of ONE attribute -- are evaluated on probe
+sessions built from the same flags the generator uses on real objects and compared, row by row, with the regenerated
+table.  A change of the source that alters a row (e.g. `_wbits_ = 0` before `_rbits_ |= _wbits_ ...`) breaks these. -/
+
+open PonyVerif.Gen.OccTable
+
+def probeCfg (vol : Bool) : Cfg := ⟨[1], fun a => a == 1 && vol, fun _ => false⟩
+def probeObj (vals dbvals : Option Val) (r w vol : Bool) : CObj :=
+  ⟨true, fun a => if a = 1 then vals else none, fun a => if a = 1 then dbvals else none,
+   fun a => a == 1 && r, fun a => a == 1 && w, fun a => a == 1 && w && !vol⟩
+def probeSess (o : CObj) : Sess := ⟨fun c => if c = 0 then o else CObj.absent, fun _ => none, []⟩
+
+/-- read bit after `obj.a` ([Attribute.__get__]), starting from `_rbits_ = 0` -/
+def modelGet (w vol : Bool) : Bool :=
+  ((readFinish (probeCfg vol) (probeSess (probeObj (some 5) (some 3) false w vol), none) 0 1).1.c 0).rbits 1
+
+/-- (read bit, write bit) after `obj.a = 5` ([Attribute.__set__]) -/
+def modelSet (r w : Bool) : Bool × Bool :=
+  let o := (exec (probeCfg false) true (probeSess (probeObj (some 3) (some 3) r w false)) [] (.write 0 1 5)).1.c 0
+  (o.rbits 1, o.wbits 1)
+
+/-- [Entity._db_set_] with one attribute: 0 = UnrepeatableReadError, else 1 + 2·[_dbvals_ = new] + [_vals_ = new] -/
+def modelDbSet (loaded same r w : Bool) : Nat :=
+  let new : Val := if same then 3 else 7
+  let o := probeObj (if w then some 5 else if loaded then some 3 else none) (if loaded then some 3 else none) r w false
+  match dbSetObj true (probeSess o) 0 [(1, new)] with
+  | (_, some _) => 0
+  | (s1, none) => 1 + (if (s1.c 0).dbvals 1 == some new then 2 else 0) + (if (s1.c 0).vals 1 == some new then 1 else 0)
+
+/-- tail of [Entity._save_updated_] + [Entity._update_dbvals_]: (read bit, write bit, attribute still in `_vals_`,
+    `_dbvals_`: 0 absent / 1 the written value / 2 the old value) -/
+def modelSave (r w vol vn : Bool) : Bool × Bool × Bool × Nat :=
+  let old : Val := if vn && !w then -1 else 3
+  let written : Val := if vn then -1 else 5
+  let o := probeObj (if w then some written else some old) (some old) r w vol
+  let o1 := (saveUpdated (probeCfg vol) (probeSess o) [(0, [(1, old)])] 0).1.c 0
+  (o1.rbits 1, o1.wbits 1, (o1.vals 1).isSome,
+   match o1.dbvals 1 with
+   | none => 0
+   | some d => if w && d == written && written != old then 1 else if d == old then 2 else 3)
+
+/-- the attribute is among the optimistic criteria of the UPDATE ⇔ the UPDATE is refused when its column changed -/
+def modelCrit (r : Bool) : Bool :=
+  !optimisticOk (probeCfg false) (probeObj (some 3) (some 3) r false false) [(0, [(1, 9)])] 0
+
+theorem C21_bridge_get : ∀ row ∈ getRows, modelGet row.1.1 row.1.2.1 = row.2 := by decide
+theorem C21_bridge_set : ∀ row ∈ setRows, modelSet row.1.1 row.1.2 = row.2 := by decide
+theorem C21_bridge_dbset : ∀ row ∈ dbSetRows, modelDbSet row.1.1 row.1.2.1 row.1.2.2.1 row.1.2.2.2 = row.2 := by decide
+theorem C21_bridge_save : ∀ row ∈ saveRows, modelSave row.1.1 row.1.2.1 row.1.2.2.1 row.1.2.2.2 = row.2 := by decide
+theorem C21_bridge_crit : ∀ row ∈ critRows, row.1.1 = 0 → modelCrit row.1.2 = row.2 := by decide
 
 end PonyVerif.Props.C21
